@@ -195,8 +195,9 @@ def _run_unit(args):
                failures=ctx.failures, evaluations=ctx.evaluations, distinct=len(ctx.distinct), samples=ctx.samples,
                rule=ctx.rule, paths=ctx.paths, solver_s=round(ctx.solver_s, 3), functions=ctx.functions,
                files=files, wall_s=round(time.time() - t0, 3), notes=ctx.notes, exhaustive=ctx.exhaustive)
-    from . import npmodel
+    from . import npmodel, loopcut
     res["trusted"] = sorted(set(res["trusted"]) | set(npmodel.AXIOMS_USED))
+    res["locals"] = dict(loopcut.EXTRACTED_LOCALS)
     return res
 
 
